@@ -289,8 +289,8 @@ other's non-ignored packets, contents identical, in order. -/
 def loopAnswer (gA gB : Nat) (dA dB : List Nat) (pktsA pktsB : List (List Nat)) : Option String :=
   if gA > Spec.MAX_GARBAGE_LEN ∨ gB > Spec.MAX_GARBAGE_LEN ∨ (dA ++ dB).any (· > Spec.MAX_CONTENT_LEN) then none else do
   let rx := fun (ps : List (List Nat)) => ps.filterMapM (fun p => match p with
-    | [len, seed, ign] => if len > Spec.MAX_CONTENT_LEN then none else
-        some (if ign == 1 then none else some (digest (fill seed len)))
+    -- a packet above the content limit is refused by the sender (nothing is sent, nothing changes)
+    | [len, seed, ign] => some (if ign == 1 || len > Spec.MAX_CONTENT_LEN then none else some (digest (fill seed len)))
     | _ => none)
   let fromB ← rx pktsB
   let fromA ← rx pktsA
